@@ -37,6 +37,7 @@ from deep.processor.context.callback_context import CallbackContext
 from deep.processor.context.trigger_context import TriggerContext
 from deep.push import PushService
 from deep.thread_local import ThreadLocal
+from deep.utils import str2bool
 
 if TYPE_CHECKING:
     from deep.processor.context.action_context import ActionContext
@@ -105,7 +106,9 @@ class TriggerHandler:
         self.__stopped = False
         # if we call settrace we cannot use debugger,
         # so we allow the settrace to be disabled, so we can at least debug around it
-        if self._config.NO_TRACE:
+        # (from the environment the switch is text: 'false' does not mean yes)
+        no_trace = self._config.NO_TRACE
+        if no_trace is not None and str2bool(str(no_trace)):
             return
         # (after a shutdown from another thread this thread still runs OUR function - nobody else could take it away:
         # that is our own leftover, not what was there before us; what we remembered then is still what to put back)
